@@ -205,6 +205,10 @@ def parse_cbmc(res, rc, unit, proof, dt, cmdline):
     if status is None:
         tail = ' | '.join(messages[-5:])
         raise Undecided(f"unit {unit}/{proof}: cbmc gave no verdict (rc={rc}): {tail}")
+    if status not in ('success', 'failure'):
+        # e.g. "SAT checker ran out of memory" -> VERIFICATION ERROR: obligations carry status ERROR; never a violation
+        tail = ' | '.join(messages[-3:])
+        raise Undecided(f"unit {unit}/{proof}: cbmc ended with status '{status}' (rc={rc}): {tail}")
     if any('ignoring' in m and 'forall' in m for m in messages):
         raise Undecided(f"unit {unit}/{proof}: back end ignored a quantifier; result not trusted")
     out = []
